@@ -264,7 +264,13 @@ func runCheck(id, tier, repoDir, verifDir string, debug, claim, keep bool) int {
 		}
 		if ct.NoVerify {
 			assumedContracts = append(assumedContracts, k)
-			if len(ct.Asserts) == 0 && len(ct.Loops) == 0 {
+			nChecked := 0
+			for _, cl := range ct.Ensures {
+				if hasTag(cl.Tags, "checked") {
+					nChecked++
+				}
+			}
+			if len(ct.Asserts) == 0 && len(ct.Loops) == 0 && nChecked == 0 {
 				continue
 			}
 			// an assumed contract that pins calls made by the body ("at call ..."):
@@ -275,6 +281,12 @@ func runCheck(id, tier, repoDir, verifDir string, debug, claim, keep bool) int {
 			// assumed - for this body; the vacuity covers stay on)
 			ct2 := *ct
 			ct2.HasMods, ct2.Mods, ct2.Ensures, ct2.NoVerify = false, nil, nil, false
+			for _, cl := range ct.Ensures {
+				if hasTag(cl.Tags, "checked") {
+					// a postcondition of an assumed contract that is nevertheless proved
+					ct2.Ensures = append(ct2.Ensures, cl)
+				}
+			}
 			r := w.verifyFunction(fn, &ct2, id, false)
 			r.Contract = ct
 			results = append(results, r)
